@@ -44,7 +44,7 @@ def ctor_configs(tier, seed):
     args = ctor_args(tier, seed)
     cfgs = [class_config('constructors-from3', args if tier != 'quick' else args, 3 if tier == 'quick' else 3, csel={'ctor', 'named', 'tokens'})]
     # all ordered pairs of the catalogue for AnyBetween / pairs for AnyFrom
-    cat = UV.CATALOGUE if tier != 'quick' else sorted(set(UV.META + UV.INCLASS + [97, 122, 48, 57, 10, 0, 0x10FFFF, 0xD800, 0xDF]))
+    cat = UV.CATALOGUE if tier != 'quick' else sorted(set(UV.META + UV.INCLASS + [97, 122, 48, 57, 9, 10, 13, 32, 0, 0x10FFFF, 0xD800, 0xDF]))
     cfgs.append(class_config('between-all-pairs', [('c', c) for c in cat] + [('tok', 'Backslash'), ('tok', 'Dollar')], 2 if tier != 'quick' else 1,
                              csel={'ctor'}))
     return cfgs
